@@ -53,6 +53,12 @@ Proof. intros H. unfold dict_of_pairs. now rewrite dict_update_fresh. Qed.
 Lemma if_eq0 (x : Z) : (if (x =? 0)%Z then Ok 0%Z else Ok x) = Ok x.
 Proof. destruct (Z.eqb_spec x 0); subst; reflexivity. Qed.
 
+Lemma clamp_nat (i n : nat) :
+  (if (Z.of_nat i >? Z.of_nat n)%Z then Ok (Z.of_nat n) else Ok (Z.of_nat i)) = Ok (Z.of_nat (Nat.min i n)).
+Proof.
+  destruct (Z.gtb_spec (Z.of_nat i) (Z.of_nat n)); f_equal; f_equal; lia.
+Qed.
+
 Lemma rbind_ok {A B} (a : A) (f : A -> result B) : rbind (Ok a) f = f a.
 Proof. reflexivity. Qed.
 
@@ -84,6 +90,8 @@ Proof.
   intros HR HO Hfd. unfold fromFunction.
   cbn [co_argcount co_kwonlyargcount co_varnames has_varargs has_varkw fn_defaults fn_imlevel fn_dict].
   cbv zeta.
+  rewrite clamp_nat, rbind_ok. cbv beta.
+  rewrite (Nat.min_l (length pre)) by lia.
   rewrite negb_involutive, if_eq0, rbind_ok.
   replace (Z.of_nat (length pre + length R + length O) - Z.of_nat (length pre))%Z
     with (Z.of_nat (length R + length O)) by lia.
@@ -183,7 +191,7 @@ Lemma NoDup_skipn {A} (l : list A) n : NoDup l -> NoDup (skipn n l).
 Proof. intros H. rewrite <- (firstn_skipn n l) in H. now apply NoDup_app_r in H. Qed.
 
 (* ---- the main statement *)
-Lemma fromFunction_correct : forall (s : signature) (locals : list name) (fd : list (name * dflt)) (iml : nat),
+Lemma fromFunction_correct_le : forall (s : signature) (locals : list name) (fd : list (name * dflt)) (iml : nat),
   valid s -> NoDup (map fst fd) -> iml <= length (positionals s) ->
   fromFunction (layout s locals fd iml) = Ok (spec_info s iml fd).
 Proof.
@@ -217,6 +225,38 @@ Proof.
       f_equal. now rewrite skipn_app, skipn_map. }
     rewrite E. now rewrite <- !app_assoc.
   - unfold Od, O'. now rewrite <- map_app, firstn_skipn.
+Qed.
+
+(* the source clamps imlevel to co_argcount: an imlevel beyond the positional parameters strips
+   all of them and nothing else *)
+Lemma fromFunction_clamp co :
+  fromFunction co = fromFunction (with_imlevel (Nat.min (fn_imlevel co) (co_argcount co)) co).
+Proof.
+  unfold fromFunction, with_imlevel.
+  cbn [co_argcount co_kwonlyargcount co_varnames has_varargs has_varkw fn_defaults fn_imlevel fn_dict].
+  cbv zeta. rewrite !clamp_nat.
+  rewrite (Nat.min_l (Nat.min (fn_imlevel co) (co_argcount co))) by apply Nat.le_min_r.
+  reflexivity.
+Qed.
+
+Lemma skipn_min {A} (l : list A) n : skipn (Nat.min n (length l)) l = skipn n l.
+Proof.
+  destruct (Nat.le_gt_cases n (length l)).
+  - now rewrite Nat.min_l.
+  - rewrite Nat.min_r by lia. rewrite skipn_all. symmetry. apply skipn_all2. lia.
+Qed.
+
+Lemma fromFunction_correct : forall (s : signature) (locals : list name) (fd : list (name * dflt)) (iml : nat),
+  valid s -> NoDup (map fst fd) ->
+  fromFunction (layout s locals fd iml) = Ok (spec_info s iml fd).
+Proof.
+  intros s locals fd iml Hv Hfd. rewrite fromFunction_clamp.
+  change (with_imlevel (Nat.min (fn_imlevel (layout s locals fd iml)) (co_argcount (layout s locals fd iml)))
+                       (layout s locals fd iml))
+    with (layout s locals fd (Nat.min iml (length (posonly s) + length (pos s)))).
+  rewrite <- app_length. fold (positionals s).
+  rewrite fromFunction_correct_le; auto using Nat.le_min_r.
+  unfold spec_info, visible. now rewrite skipn_min.
 Qed.
 
 (* ---- getSignatureString *)
@@ -256,24 +296,22 @@ Proof.
 Qed.
 
 Lemma signature_string_renders : forall (s : signature) (locals : list name) (fd : list (name * dflt)) (iml : nat),
-  valid s -> NoDup (map fst fd) -> iml <= length (positionals s) ->
+  valid s -> NoDup (map fst fd) ->
   exists m, fromFunction (layout s locals fd iml) = Ok m /\ getSignatureString m = render s iml.
 Proof.
-  intros s locals fd iml Hv Hfd Hi. exists (spec_info s iml fd). split.
+  intros s locals fd iml Hv Hfd. exists (spec_info s iml fd). split.
   - now apply fromFunction_correct.
   - apply string_of_spec_info. apply Hv.
 Qed.
 
 (* ---- fromMethod *)
-Lemma fromMethod_strips_self : forall (s : signature) (locals : list name) (fd : list (name * dflt)) (iml0 : nat)
-    (self : param) (rest : list param),
-  valid s -> NoDup (map fst fd) -> positionals s = self :: rest ->
+Lemma fromMethod_strips_self : forall (s : signature) (locals : list name) (fd : list (name * dflt)) (iml0 : nat),
+  valid s -> NoDup (map fst fd) ->
   fromMethod (layout s locals fd iml0)
-  = Ok (mkMethod (map fst rest) (required_of rest) (optional_of rest) (vararg s) (varkw s) fd).
+  = Ok (mkMethod (map fst (tl (positionals s))) (required_of (tl (positionals s)))
+                 (optional_of (tl (positionals s))) (vararg s) (varkw s) fd).
 Proof.
-  intros s locals fd iml0 self rest Hv Hfd HP. unfold fromMethod.
+  intros s locals fd iml0 Hv Hfd. unfold fromMethod.
   change (with_imlevel 1 (layout s locals fd iml0)) with (layout s locals fd 1).
   rewrite fromFunction_correct; auto.
-  - unfold spec_info, visible. now rewrite HP.
-  - rewrite HP. cbn. lia.
 Qed.
